@@ -45,9 +45,10 @@ MIN_NONTRIVIAL = 200
 REQUIRED_COUNTERS = ["tracebacks_checked", "callsite_frames_checked", "python_frames_checked", "text_error_pages", "html_error_pages", "format_exceptions_pages", "warnings_cases", "multi_template_tracebacks"]
 REQUIRED_COUNTERS += ["edit_and_recompile_rounds"]
 REQUIRED_COUNTERS += ["last_line_pages"]
+RULE += " a template whose first construction fails in its module-level code (formatted), corrected, then raising at render time."
 RULE += " a magic encoding comment as first line of three in ten documents."
 RULE += " module-level warnings when an up-to-date module file is reused for a template file at another path (copied directory, second spelling of the path)."
-REQUIRED_COUNTERS += ["warning_reused_module_loads"]
+REQUIRED_COUNTERS += ["warning_reused_module_loads", "failed_first_loads"]
 
 _st = {}
 
@@ -698,6 +699,66 @@ def run_edit_and_recompile(res):
             shutil.rmtree(d, ignore_errors=True)
 
 
+def run_failed_first_load(res):
+    """the module-level code of a template raises while the Template is constructed, and that failure is formatted;
+    the file is then corrected, loads, and raises while rendering: this second traceback maps to the template like any
+    other (what was learnt while formatting the first one does not stick to the module's name or file)"""
+    import time as _time
+
+    ex = _st["exceptions"]
+    L = _st["TemplateLookup"]
+    T = _st["Template"]
+    for path in ("lookup", "lookup-moddir", "template-moddir", "template-file"):
+        _st["n"] += 1
+        d = os.path.join(_st["tmp"], "f%d" % _st["n"])
+        root = os.path.join(d, "root")
+        os.makedirs(root)
+        pname = "page_ff%d.html" % _st["n"]   # (a name no other scenario of this process uses)
+        fp = os.path.join(root, pname)
+        try:
+            def load():
+                if path == "lookup":
+                    return L(directories=[root], imports=IMPORTS).get_template("/" + pname)
+                if path == "lookup-moddir":
+                    return L(directories=[root], module_directory=os.path.join(d, "mods"), imports=IMPORTS).get_template("/" + pname)
+                if path == "template-moddir":
+                    return T(filename=fp, module_directory=os.path.join(d, "mods"), imports=IMPORTS)
+                return T(filename=fp, imports=IMPORTS)
+
+            with open(fp, "w") as f:
+                f.write("first\n<%!\n    mlv_ = 1\n    boom('M')\n%>\nbody\n")
+            res.evaluations += 1
+            res.count("failed_first_loads")
+            try:
+                load()
+                res.violate("harness", "path %s: the planted module-level raise did not happen" % path)
+                continue
+            except Exception:
+                # (formatted, as an application would; what it shows for a template that never came to life is not asserted)
+                ex.RichTraceback()
+                ex.text_error_template().render_unicode()
+            with open(fp, "w") as f:
+                f.write("first\nsecond\n<%!\n    mlv_ = 1\n%>\n<%\n    y_ = 2\n    boom('T')\n%>\nbody\n")
+            t_ = _time.time() + 10
+            os.utime(fp, (t_, t_))
+            try:
+                load().render_unicode()
+                res.violate("harness", "path %s: the planted raise did not happen" % path)
+                continue
+            except Exception:
+                rt = ex.RichTraceback()
+                page = ex.text_error_template().render_unicode()
+            if rt.lineno != 8 or (rt.source or "").split("\n")[7:8] != ["    boom('T')"]:
+                res.violate("richtraceback-after-failed-first-load", "path %s: the corrected template raises on line 8: RichTraceback reports line %r, source line %r, records %r" % (
+                    path, rt.lineno, (rt.source or "").split("\n")[(rt.lineno or 1) - 1:rt.lineno], [(r_[4], r_[5]) for r_ in rt.records][-4:]),
+                    witness="a template whose first construction failed at module level")
+            if ('File "%s", line 8' % fp) not in page:
+                res.violate("text-error-page-after-failed-first-load", "path %s: the text error template lacks line 8 of %s:\n%s" % (path, fp, page[-400:]))
+            res.nontrivial("failed-first-load", path)
+        finally:
+            shutil.rmtree(d, ignore_errors=True)
+
+
 def run_last_line(res):
     """the failing line is the LAST line of a source that does not end in a newline: the HTML error page (explicit and
     through format_exceptions) shows it in its source excerpt exactly as it does for the same text with a final newline"""
@@ -754,6 +815,7 @@ def run_case(case):
     elif case["kind"] == "edit-recompile":
         run_edit_and_recompile(res)
         run_warning_reused_module(res)
+        run_failed_first_load(res)
     elif case["kind"] == "tb" and "spec" not in case:
         r = common.rng_for(case["seed"], "c12", case["index"], case["pos"])
         for path in PATHS:
